@@ -122,6 +122,8 @@ def oracle(ctx, only=None):
                     if np.count_nonzero(m.f2t[1] != -1) > 0:
                         break
                 parent = None
+                if mk == 'novalidate':
+                    c03_oracle.check_sorted(m, desc, ctx.fail)
                 if mk == 'adaptive':
                     c03_oracle.check_sorted(m, desc, ctx.fail)
                     c03_oracle.check_parent_untouched(ctx.fail)
@@ -174,7 +176,7 @@ def run(ctx, only=None):
                         'effective-basis treatment for: ' + '; '.join(f'{k}: {v}' for k, v in c03_gen.TRACE_SPECIAL.items())
                         + '; no trace lemma for the ElementGlobal family, ElementLinePp (1-d), wedge (two facet kinds)']
     ctx.cov['rule'] = ('oracle: every element with a continuity claim x {delaunay, structured, jiggled, curved second-order} meshes of its '
-                       'cell type, plus (simplices) library-produced meshes: random with_subdomains / with_boundaries / with_defaults / translated / scaled, then refined(random marked cells) or refined(), followed by random uniform refinement / translated / scaled / with_boundaries / further adaptive steps (all of them, and the parent re-used after the derivation, must have sorted cells; p and t of the parent must be unchanged) x random vertex renumbering + cell permutation x random admissible local vertex order (any for '
+                       'cell type, plus (simplices) default constructor with validate=False from unsorted connectivity, meshes with sorting explicitly off (sort_t=False / oriented(), elements with at most one DOF per facet or edge only), library-produced meshes: random with_subdomains / with_boundaries / with_defaults / translated / scaled, then refined(random marked cells) or refined(), followed by random uniform refinement / translated / scaled / with_boundaries / further adaptive steps (all of them, and the parent re-used after the derivation, must have sorted cells; p and t of the parent must be unchanged) x random vertex renumbering + cell permutation x random admissible local vertex order (any for '
                        'simplices, cyclic shifts for quadrilaterals, 24 rotations for hexahedra) through the default constructors x all '
                        'interior facets x 5-7 points per facet x a random coefficient vector; non-trivial = at least 2 interior facets; '
                        'distinct by mesh content')
